@@ -64,9 +64,16 @@ def _model_case(draw):
     for _ in range(3):
         k = draw(st.integers(1, ns))
         sp = sorted(draw(st.lists(st.integers(0, ns - 1), min_size=k, max_size=k, unique=True)))
+        if draw(st.booleans()):
+            # a block of consecutive ids, asked in a shuffled order that keeps first < ... < last ends
+            a = draw(st.integers(0, ns - 1))
+            sp = list(range(a, min(ns, a + draw(st.integers(2, 6)))))
         kc = draw(st.integers(1, nc))
         ch = draw(st.lists(st.integers(0, nc - 1), min_size=kc, max_size=kc, unique=True))
-        queries.append([sp, ch])
+        perm = list(draw(st.permutations(sp))) if draw(st.booleans()) else None
+        if perm is not None and len(sp) >= 3 and draw(st.booleans()):
+            perm = [sp[0]] + list(draw(st.permutations(sp[1:-1]))) + [sp[-1]]
+        queries.append([sp, ch, perm])
     return {'k': 'model', 'spec': spec, 'queries': queries}
 
 
@@ -145,7 +152,29 @@ def _check_model(case):
         m = D.load(T, must_return)
         try:
             nt = spec['nt']
-            for sp, ch in case['queries']:
+            for q in case['queries']:
+                sp, ch = q[0], q[1]
+                perm = q[2] if len(q) > 2 else None
+                if perm is not None:
+                    # get_features accepts the spikes in any order (values are per requested spike)
+                    pa = np.array(perm, dtype=np.int64)
+                    outp = must_return('get_features (permuted request)', m.get_features, pa,
+                                       np.array(ch, dtype=np.int64))
+                    for i, s in enumerate(perm):
+                        r = _row_of(T.pcf_rows, s)
+                        if r is None:
+                            continue
+                        t = int(T.spike_templates[s])
+                        for j, c in enumerate(ch):
+                            e = np.zeros(3)
+                            for k in range(T.pcf.shape[2]):
+                                if int(T.pcf_ind[t, k]) == c:
+                                    e = T.pcf[r, :, k].astype(np.float64)
+                            if not np.array_equal(outp[i, j], e):
+                                raise Violation('get_features(permuted request: spike %d, channel '
+                                                '%d) is not the stored value / zero' % (s, c),
+                                                key='get_features-permuted', observed=outp[i, j],
+                                                expected=e)
                 spa = np.array(sp, dtype=np.int64)
                 cha = np.array(ch, dtype=np.int64)
                 out = must_return('get_features', m.get_features, spa, cha)
@@ -296,7 +325,7 @@ def classify(case, info):
         if s['tf']['rows'] is not None:
             labels.append('model:tf-row-table')
             nt = True
-        if any(ch != sorted(ch) for _, ch in case['queries']):
+        if any(q[1] != sorted(q[1]) for q in case['queries']):
             labels.append('model:unsorted-channels')
             nt = True
     else:
